@@ -622,19 +622,38 @@ Definition spec_case (c : case) : bool :=
            && match eo with Some e => forallb (fun x => e <=? x) (se :: pcs) | None => false end
   | CProofHist mx steps => phist_spec mx [] steps
   | CDns64 hs neg mn addrs via t0 t1 bobs obs cobs =>
-      (* the synthesised records are inside the lifetime of every cached piece they were composed from *)
+      (* the synthesised records are inside the lifetime of EVERY piece the reply was composed
+         from: the AAAA answer, the address answer and every alias piece the A chase went
+         through (a cached piece: its end; a fresh one: the lease it was learned under);
+         and never above the RFC 6147 terms (negative TTL, every A record) *)
       forallb (fun x =>
                  forallb (fun p => match p with
                                    | PHit e => (t0 <? entry_end e) && (x * second <=? entry_end e - t0)
                                    | PFresh t _ => x <=? t
                                    end) (neg :: addrs)
+                 && forallb (fun p => match p with
+                                      | PHit e => (t0 <? entry_end e) && (x * second <=? entry_end e - t0)
+                                      | PFresh _ (Some l) => x * second <=? Z.max 0 (l - t0)
+                                      | PFresh _ None => true
+                                      end) (neg :: via ++ addrs)
                  && (0 <=? x)
                  && (if hs then x <=? mn else x <=? 600)) obs
-      (* an alias record never outlives the cached alias piece it was copied from *)
+      (* an alias record never outlives the alias piece it was copied from *)
       && forallb (fun x => forallb (fun p => match p with
                                              | PHit e => (t0 <? entry_end e) && (x * second <=? entry_end e - t0)
-                                             | PFresh t _ => x <=? t
+                                             | PFresh t None => x <=? t
+                                             | PFresh t (Some l) => (x <=? t) && (x * second <=? Z.max 0 (l - t0))
                                              end) via) cobs
+      (* the request tree is left bound by every piece (where the route lets the driver read it) *)
+      && match bobs with
+         | Some b =>
+             forallb (fun p => match p with
+                               | PHit e => match b with Some b' => b' <=? entry_end e | None => false end
+                               | PFresh _ (Some l) => match b with Some b' => b' <=? l | None => false end
+                               | PFresh _ None => true
+                               end) (neg :: via ++ addrs)
+         | None => true
+         end
   | CProofTree d dspec lease ahit t0 t1 ttls bobs adm =>
       (* nothing that came out of the cache outlives the denial it was composed from;
          the tree is bound by it; what is re-cached ends with it *)
